@@ -82,7 +82,7 @@ class CreditControlAnswer(DiameterAnswer):
                     # "removal_of_access": RemovalOfAccessAVP,
                     "ip_can_type": IpCanTypeAVP,
                     "error_message": ErrorMessageAVP,
-                    # "error_reporting": ErrorReportingAVP,
+                    "error_reporting_host": ErrorReportingHostAVP,
                     "failed_avp": FailedAvpAVP,
                     "proxy_info": ProxyInfoAVP,
                     "route_record": RouteRecordAVP,
@@ -469,6 +469,7 @@ class ReAuthRequest(DiameterRequest):
     }
     optionals = {
                     # "drmp": DrmpAVP,
+                    "destination_host": DestinationHostAVP,
                     # "session_release_cause": SessionReleaseCauseAVP,
                     "origin_state_id": OriginStateIdAVP,
                     # "oc_supported_features": OcSupportedFeaturesAVP,
